@@ -166,7 +166,25 @@ def run(R):
             ok = True
         elif c is not None and 0 < c <= 10 and g and lps:
             after = jf.reachable_from(g[2])
-            if not [x for x in L.consuming_calls(jf) if x.bb in after]:
+            # an interrupted load ends exactly like a completed one (the rows read so far are the table): every path from the false
+            # edge to the function exit goes through the statement(s) that build the value the completed load returns - a different
+            # value (None, an error) for "interrupted" makes the rest of the run (the final aggregate table) fail or differ
+            lp_ = lps[0]
+            normal = set()
+            for nt_ in (getattr(lp_, "none", None) or []):
+                normal |= jf.reachable_from(nt_)
+            ret_blocks = set(i for i, st in jf.stmts() if i in normal and st["k"] == "assign" and st["pl"]["l"] == 0 and not st["pl"]["p"])
+            same_end, badb = PR.all_paths_hit(jf, g[2], ret_blocks) if ret_blocks else (True, None)
+            if [x for x in L.consuming_calls(jf) if x.bb in after]:
+                R.violation("C19.join", "JoinedTableData::execute|continues", "after an interrupt the joined file keeps being read", [loads[0].loc()])
+                ok = True
+            elif not same_end:
+                ok = True
+                R.violation("C19.join", "JoinedTableData::execute|other-result",
+                            "an interrupted load of the joined file does not return what a completed load returns (it leaves through its own "
+                            "return): callers see a missing / different joined table, so the final aggregate table of an interrupted query "
+                            "fails or differs instead of covering the lines consumed", [jf.loc(badb) if badb is not None else loads[0].loc()])
+            elif True:
                 ok = True
                 R.ok("C19.join", "JoinedTableData::execute", "flag sampled every %d lines; false edge leaves the loop" % c, loads[0].loc())
             else:
